@@ -142,8 +142,9 @@ structure Ext (st st' : Scc) : Prop where
   stack : ∃ R, st'.stack = st.stack ++ R
   index : ∀ x, dhas st.index x = true → dhas st'.index x = true
   bsuffix : ∃ k, st'.boundaries = st.boundaries.drop k
+  ident : ∀ x, x ∈ st.identified → x ∈ st'.identified
 
-theorem Ext.refl (st : Scc) : Ext st st := ⟨⟨[], by simp⟩, fun _ h => h, ⟨0, by simp⟩⟩
+theorem Ext.refl (st : Scc) : Ext st st := ⟨⟨[], by simp⟩, fun _ h => h, ⟨0, by simp⟩, fun _ h => h⟩
 
 theorem Ext.trans {a b c : Scc} (h1 : Ext a b) (h2 : Ext b c) : Ext a c := by
   obtain ⟨R1, e1⟩ := h1.stack
@@ -151,7 +152,7 @@ theorem Ext.trans {a b c : Scc} (h1 : Ext a b) (h2 : Ext b c) : Ext a c := by
   obtain ⟨k1, b1⟩ := h1.bsuffix
   obtain ⟨k2, b2⟩ := h2.bsuffix
   refine ⟨⟨R1 ++ R2, by rw [e2, e1, List.append_assoc]⟩, fun x hx => h2.index x (h1.index x hx),
-    ⟨k1 + k2, by rw [b2, b1, List.drop_drop]⟩⟩
+    ⟨k1 + k2, by rw [b2, b1, List.drop_drop]⟩, fun x hx => h2.ident x (h1.ident x hx)⟩
 
 theorem dhas_cons (v : Str) (i : Nat) (index : List (Str × Nat)) (x : Str) :
     dhas ((v, i) :: index) x = ((x == v) || dhas index x) := by
@@ -285,7 +286,9 @@ theorem WF.setBoundaries {g : Graph} {st : Scc} (h : WF g st) (k : Nat)
 theorem WF.close {g : Graph} {st : Scc} (h : WF g st) {S0 R : List Str} {v : Str} {B0 : List Nat}
     (hs : st.stack = S0 ++ v :: R) (hb : st.boundaries = S0.length :: B0) (hB0 : BOk S0 B0) :
     WF g (sccClose S0.length st) ∧ (sccClose S0.length st).stack = S0 ∧
-    (sccClose S0.length st).boundaries = B0 ∧ (sccClose S0.length st).index = st.index := by
+    (sccClose S0.length st).boundaries = B0 ∧ (sccClose S0.length st).index = st.index ∧
+    (sccClose S0.length st).identified = (v :: R) ++ st.identified ∧
+    (sccClose S0.length st).out = st.out ++ [v :: R] := by
   have htake : st.stack.take S0.length = S0 := by rw [hs]; simp
   have hdrop : st.stack.drop S0.length = v :: R := by rw [hs]; simp
   have hclose : sccClose S0.length st =
@@ -295,7 +298,7 @@ theorem WF.close {g : Graph} {st : Scc} (h : WF g st) {S0 R : List Str} {v : Str
     rw [hb]
     simp only [if_true, htake, hdrop]
   rw [hclose]
-  refine ⟨?_, rfl, rfl, rfl⟩
+  refine ⟨?_, rfl, rfl, rfl, rfl, rfl⟩
   have hnd : (S0 ++ v :: R).Nodup := hs ▸ h.nodup
   have hnd' := List.nodup_append.1 hnd
   refine ⟨h.noerr, hnd'.1, ?_, ?_, ?_, h.keys, hB0, ?_, ?_, ?_⟩
@@ -358,12 +361,13 @@ theorem dget_some_of_key {g : Graph} {v : Str} (hv : v ∈ keysOf g) : ∃ ws, d
 /-- the invariant of `for w in edges[v]` inside `dfs(v)`; `S0`, `B0` are the
 stack and the boundaries when `dfs(v)` was entered, `idx1` the index after the push -/
 structure LoopInv (g : Graph) (fuel : Nat) (S0 : List Str) (B0 : List Nat) (v : Str)
-    (idx1 : List (Str × Nat)) (cur : Scc) : Prop where
+    (idx1 : List (Str × Nat)) (I0 : List Str) (cur : Scc) : Prop where
   wf : WF g cur
   stack : ∃ R, cur.stack = S0 ++ v :: R
   bsuffix : ∃ k, cur.boundaries = (S0.length :: B0).drop k
   fuel : unindexed g cur.index < fuel
   index : ∀ x, dhas idx1 x = true → dhas cur.index x = true
+  ident : ∀ x, x ∈ I0 → x ∈ cur.identified
 
 /-- the statement proved by induction on the fuel -/
 def DfsSpec (g : Graph) (fuel : Nat) : Prop :=
@@ -372,9 +376,9 @@ def DfsSpec (g : Graph) (fuel : Nat) : Prop :=
     WF g (dfs fuel g v st) ∧ Ext st (dfs fuel g v st) ∧ dhas (dfs fuel g v st).index v = true
 
 theorem loop_struct {g : Graph} {fuel : Nat} (IH : DfsSpec g fuel) {S0 : List Str} {B0 : List Nat}
-    {v : Str} {idx1 : List (Str × Nat)} :
-    ∀ (ws : List Str) (cur : Scc), (∀ w ∈ ws, w ∈ keysOf g) → LoopInv g fuel S0 B0 v idx1 cur →
-      LoopInv g fuel S0 B0 v idx1 (ws.foldl (sccStep (dfs fuel g)) cur)
+    {v : Str} {idx1 : List (Str × Nat)} {I0 : List Str} :
+    ∀ (ws : List Str) (cur : Scc), (∀ w ∈ ws, w ∈ keysOf g) → LoopInv g fuel S0 B0 v idx1 I0 cur →
+      LoopInv g fuel S0 B0 v idx1 I0 (ws.foldl (sccStep (dfs fuel g)) cur)
   | [], cur, _, h => h
   | w :: ws, cur, hk, h => by
     rw [List.foldl_cons]
@@ -392,7 +396,7 @@ theorem loop_struct {g : Graph} {fuel : Nat} (IH : DfsSpec g fuel) {S0 : List St
       obtain ⟨R', hR'⟩ := ext'.stack
       obtain ⟨k', hB'⟩ := ext'.bsuffix
       refine ⟨wf', ⟨R ++ R', by rw [hR', hR]; simp⟩, ⟨k + k', by rw [hB', hB, List.drop_drop]⟩, ?_,
-        fun x hx => ext'.index x (h.index x hx)⟩
+        fun x hx => ext'.index x (h.index x hx), fun x hx => ext'.ident x (h.ident x hx)⟩
       exact Nat.lt_of_le_of_lt (unindexed_mono g ext'.index) h.fuel
     | some iw =>
       simp only
@@ -406,7 +410,7 @@ theorem loop_struct {g : Graph} {fuel : Nat} (IH : DfsSpec g fuel) {S0 : List St
         simp only
         refine ⟨h.wf.setBoundaries k' (fun _ => hl'), ⟨R, hR⟩, ⟨k + k', by
           show cur.boundaries.drop k' = _
-          rw [hB, List.drop_drop]⟩, h.fuel, h.index⟩
+          rw [hB, List.drop_drop]⟩, h.fuel, h.index, h.ident⟩
 
 theorem dfs_struct (g : Graph) (hc : ClosedGraph g) : ∀ fuel, DfsSpec g fuel
   | 0 => by
@@ -422,8 +426,9 @@ theorem dfs_struct (g : Graph) (hc : ClosedGraph g) : ∀ fuel, DfsSpec g fuel
       show dhas ((v, st.stack.length) :: st.index) v = true
       rw [dhas_cons]; simp
     -- the loop
-    have hinit : LoopInv g fuel st.stack st.boundaries v (sccPush v st).index (sccPush v st) := by
-      refine ⟨hpushWF, ⟨[], rfl⟩, ⟨0, rfl⟩, ?_, fun _ h => h⟩
+    have hinit : LoopInv g fuel st.stack st.boundaries v (sccPush v st).index st.identified
+        (sccPush v st) := by
+      refine ⟨hpushWF, ⟨[], rfl⟩, ⟨0, rfl⟩, ?_, fun _ h => h, fun _ h => h⟩
       have := unindexed_lt g hpushExt.2 hv hn hidxv
       omega
     have hloop := loop_struct IH ws (sccPush v st) (fun w hw => hc v ws hws w hw) hinit
@@ -441,9 +446,11 @@ theorem dfs_struct (g : Graph) (hc : ClosedGraph g) : ∀ fuel, DfsSpec g fuel
     cases k with
     | zero =>
       simp only [List.drop_zero] at hB
-      obtain ⟨wf', hs', hb', hi'⟩ := hloop.wf.close hR hB hwf.bok
+      obtain ⟨wf', hs', hb', hi', hid', _⟩ := hloop.wf.close hR hB hwf.bok
       refine ⟨wf', ⟨⟨[], by rw [hs']; simp⟩, fun x hx => by rw [hi']; exact hidx2 x hx,
-        ⟨0, by rw [hb']; simp⟩⟩, by rw [hi']; exact hloop.index v hidxv⟩
+        ⟨0, by rw [hb']; simp⟩, fun x hx => by
+          rw [hid']; exact List.mem_append.2 (Or.inr (hloop.ident x hx))⟩,
+        by rw [hi']; exact hloop.index v hidxv⟩
     | succ k =>
       simp only [List.drop_succ_cons] at hB
       -- the top boundary is below `index[v]`: nothing is closed
@@ -463,7 +470,7 @@ theorem dfs_struct (g : Graph) (hc : ClosedGraph g) : ∀ fuel, DfsSpec g fuel
           have hbne : b ≠ st.stack.length := by omega
           simp [hbne]
       rw [hunch]
-      exact ⟨hloop.wf, ⟨⟨v :: R, hR⟩, hidx2, ⟨k, hB⟩⟩, hloop.index v hidxv⟩
+      exact ⟨hloop.wf, ⟨⟨v :: R, hR⟩, hidx2, ⟨k, hB⟩, hloop.ident⟩, hloop.index v hidxv⟩
 
 /-! ### the whole run -/
 
